@@ -725,7 +725,12 @@ fn run_case(r: &mut Rng, focus: Focus, len: usize) -> World {
 /// application reading and accepting, no writer may remain blocked (C04); after the connection
 /// ended nothing may remain pending (C08).
 fn completion_phase(w: &mut World, r: &mut Rng, focus: Focus) {
-    let rounds = if matches!(focus, Focus::C10) { 3 } else { 40 };
+    let _ = r;
+    fair_completion(w, if matches!(focus, Focus::C10) { 3 } else { 40 });
+    final_checks(w);
+}
+
+fn fair_completion(w: &mut World, rounds: usize) {
     for _ in 0..rounds {
         let before = w.steps.len();
         let mut progressed = false;
@@ -765,8 +770,6 @@ fn completion_phase(w: &mut World, r: &mut Rng, focus: Focus) {
             break;
         }
     }
-    let _ = r;
-    final_checks(w);
 }
 
 /// Liveness monitors, evaluated at the end of a case (and at the end of a replay).
@@ -862,6 +865,7 @@ fn replay_lines(lines: &[String]) -> Option<World> {
         }
         w.stim(e, &toks);
     }
+    fair_completion(&mut w, 40);
     final_checks(&mut w);
     Some(w)
 }
@@ -963,7 +967,7 @@ fn main() {
     let rule = "random stimulus sequences over two real endpoints (application calls as single polls, one transport delivery per stimulus, faults, injected frames), independent option pairs per side, scripted flow ids from a small alphabet, followed by a fair completion phase; non-trivial = at least one frame sent by one endpoint was processed by the other and an application-visible exchange completed; distinct by stimulus list";
     let mut rep = Report::new("mux", &args, rule);
     let mut drv = args.driver.as_deref().map(|p| Driver::spawn(p, &[]).expect("start Lean driver"));
-    let (cases, len) = match args.tier { Tier::Quick => (600, 60), Tier::Thorough => (20_000, 90) };
+    let (cases, len) = match args.tier { Tier::Quick => (2500, 60), Tier::Thorough => (60_000, 90) };
     let mut rng = Rng::new(args.seed ^ fnv(focus.name().as_bytes()));
 
     let mut handle_world = |w: World, origin: &str, rep: &mut Report, drv: &mut Option<Driver>| {
@@ -983,16 +987,19 @@ fn main() {
             rep.sample(json!({"lines": lines.iter().take(40).collect::<Vec<_>>(), "answers": w.steps.iter().take(38).map(|s| s.out.clone()).collect::<Vec<_>>()}));
         }
         // implementation-vs-property failures of this focus
-        for f in w.fails.iter().filter(|f| f.0 == focus.name()) {
+        // under C06 (abort/reuse) the byte-level and EOF monitors also count: state of one stream
+        // leaking into another shows up there
+        let mine = |p: &str| p == focus.name() || (focus == Focus::C06 && (p == "C02" || p == "C05"));
+        for f in w.fails.iter().filter(|f| mine(&f.0)) {
             let key = f.1.clone();
             let small = shrink_list(lines[2..].to_vec(), |cand| {
                 let mut l = lines[..2].to_vec();
                 l.extend_from_slice(cand);
-                catch(|| replay_lines(&l).is_some_and(|w2| w2.fails.iter().any(|g| g.0 == focus.name() && g.1 == key))).unwrap_or(false)
+                catch(|| replay_lines(&l).is_some_and(|w2| w2.fails.iter().any(|g| mine(&g.0) && g.1 == key))).unwrap_or(false)
             });
             let mut l = lines[..2].to_vec();
             l.extend(small);
-            let desc = replay_lines(&l).and_then(|w2| w2.fails.iter().find(|g| g.0 == focus.name() && g.1 == key).map(|g| g.2.clone())).unwrap_or_else(|| f.2.clone());
+            let desc = replay_lines(&l).and_then(|w2| w2.fails.iter().find(|g| mine(&g.0) && g.1 == key).map(|g| g.2.clone())).unwrap_or_else(|| f.2.clone());
             rep.fail(FailKind::Impl, &format!("{}:{}", focus.name(), key), &desc, json!({"lines": l}));
         }
         if let Some(d) = drv.as_mut() {
@@ -1000,7 +1007,7 @@ fn main() {
             if let Some((i, m, im)) = model_diff(d, &w) {
                 let attr = attribute(&w.steps[i].line);
                 rep.count(&format!("model-diff/{}", attr.join("+")));
-                if attr.contains(&focus.name()) {
+                if attr.contains(&focus.name()) || std::env::var("PVH_ALL_DIFFS").is_ok() {
                     // shrink while the first difference stays on the same kind of stimulus
                     let kind = w.steps[i].line.split(' ').next().unwrap_or("").to_string();
                     let small = shrink_list(lines[2..].to_vec(), |cand| {
@@ -1008,7 +1015,7 @@ fn main() {
                         l.extend_from_slice(cand);
                         catch(|| {
                             replay_lines(&l).is_some_and(|w2| {
-                                model_diff(d, &w2).is_some_and(|(j, _, _)| w2.steps[j].line.starts_with(&kind) && attribute(&w2.steps[j].line).contains(&focus.name()))
+                                model_diff(d, &w2).is_some_and(|(j, _, _)| w2.steps[j].line.starts_with(&kind))
                             })
                         })
                         .unwrap_or(false)
